@@ -185,7 +185,7 @@ def variadic(ctx, world):
             )
         else:
             ctx.ob("A2.variadic", inst, True, e.loc, sample=f"m={m}; offsets {[c for c, _ in offs]} slice starts {[s for s, _ in starts]}")
-    ctx.floor("A2.variadic instances", n, 6)
+    ctx.floor("A2.variadic instances", n, 5)
 
 
 # ------------------------------------------------------------------------------------------ layout of sequence_extend
